@@ -13,9 +13,10 @@ def memberJ' (m : JMember) : Json :=
 /-- support classes generated once per program: `NativeRunnable` (async on a C++ interface) and
     `NativeCompletion` (async on a Java interface) -/
 def supportModel (c : Cfg) (runnable completion : Bool) : Json :=
-  let jniCls (n : String) : String := "/".intercalate (c.java.package ++ c.java.supportPackage ++ [n])
-  let javaCls (n : String) : String := "/".intercalate (c.java.package ++ c.java.supportPackage ++ [n])
-  let pfx (n : String) : String := jniPrefix (c.java.package ++ c.java.supportPackage ++ [n])
+  let jniCls (n : String) : String := joinS "/" (c.java.package ++ c.java.supportPackage ++ [n])
+  let javaCls (n : String) : String := joinS "/" (c.java.package ++ c.java.supportPackage ++ [n])
+  let spkg : List String := c.java.package ++ c.java.supportPackage
+  let pfx (n : String) : String := jniPrefix (spkg ++ [n])
   let lookups := (if runnable then proxyLookups (jniCls "NativeRunnable") else []) ++ (if completion then proxyLookups (jniCls "NativeCompletion") else [])
   let exports : List Export :=
     (if runnable then
@@ -29,12 +30,12 @@ def supportModel (c : Cfg) (runnable completion : Bool) : Json :=
   let thr : JType := .cls ["java", "lang"] "Throwable" []
   let members : List JMember :=
     (if runnable then
-      proxyMembers (javaCls "NativeRunnable") ++
-      [{ cls := javaCls "NativeRunnable", kind := "method", name := "nativeRun", isStatic := false, isNative := true, params := [jlong], ret := none }] else []) ++
+      proxyMembers spkg "NativeRunnable" ++
+      [{ pkg := spkg, cname := "NativeRunnable", kind := "method", name := "nativeRun", isStatic := false, isNative := true, params := [jlong], ret := none }] else []) ++
     (if completion then
-      proxyMembers (javaCls "NativeCompletion") ++
-      [{ cls := javaCls "NativeCompletion", kind := "method", name := "nativeSuccess", isStatic := false, isNative := true, params := [jlong, obj], ret := none },
-       { cls := javaCls "NativeCompletion", kind := "method", name := "nativeException", isStatic := false, isNative := true, params := [jlong, thr], ret := none }] else [])
+      proxyMembers spkg "NativeCompletion" ++
+      [{ pkg := spkg, cname := "NativeCompletion", kind := "method", name := "nativeSuccess", isStatic := false, isNative := true, params := [jlong, obj], ret := none },
+       { pkg := spkg, cname := "NativeCompletion", kind := "method", name := "nativeException", isStatic := false, isNative := true, params := [jlong, thr], ret := none }] else [])
   Json.mkObj [("lookups", Json.arr (lookups.map lookupJ).toArray), ("exports", Json.arr (exports.map exportJ).toArray),
               ("members", Json.arr (members.map memberJ').toArray),
               ("dom", strsJ [])]
